@@ -140,8 +140,124 @@ fn run(region: u64, ops: &[Op]) -> Result<(), String> {
     Ok(())
 }
 
+/// sp::scan of DESIGN.md Appendix A, executable (real blake3)
+fn spec_scan(r: &[u8]) -> Result<(Vec<(u64, Vec<u8>)>, usize), String> {
+    let mut recs = Vec::new();
+    let mut c = 0usize;
+    loop {
+        if c + 48 > r.len() {
+            break;
+        }
+        let seq = u64::from_le_bytes(r[c..c + 8].try_into().unwrap());
+        let len = u32::from_le_bytes(r[c + 8..c + 12].try_into().unwrap()) as usize;
+        if seq == 0 && len == 0 {
+            break;
+        }
+        if len == 0 || c + 48 + len > r.len() {
+            return Err(format!("bad length at {c}"));
+        }
+        if blake3::hash(&r[c + 48..c + 48 + len]).as_bytes() != &r[c + 16..c + 48] {
+            return Err(format!("bad checksum at {c}"));
+        }
+        recs.push((seq, r[c + 48..c + 48 + len].to_vec()));
+        c += 48 + len;
+    }
+    Ok((recs, c))
+}
+
+/// A-CODEC(scan) on one region image: a read-only open + pending_records (checkpoint 0) must agree with
+/// the spec scan - same accept/reject decision, same records in order, same sequence.
+fn check_image(region: &[u8]) -> Result<(), String> {
+    use std::io::{Seek, SeekFrom, Write};
+    let mut file: File = tempfile::tempfile().map_err(|e| e.to_string())?;
+    file.set_len(WAL_OFFSET + region.len() as u64).map_err(|e| e.to_string())?;
+    file.seek(SeekFrom::Start(WAL_OFFSET)).map_err(|e| e.to_string())?;
+    file.write_all(region).map_err(|e| e.to_string())?;
+    let header = header_for(region.len() as u64);
+    let spec = spec_scan(region);
+    let got = EmbeddedWal::open_read_only(&file, &header).and_then(|mut w| {
+        let st = w.stats();
+        w.pending_records().map(|r| (r, st))
+    });
+    match (spec, got) {
+        (Err(_), Err(_)) => Ok(()),
+        (Err(why), Ok(_)) => Err(format!("scan accepted an image the spec scan rejects ({why})")),
+        (Ok(_), Err(e)) => Err(format!("scan rejected a well-formed image: {e}")),
+        (Ok((recs, _end)), Ok((got, st))) => {
+            let want: Vec<(u64, Vec<u8>)> = recs.iter().filter(|(s, _)| *s > 0).cloned().collect();
+            let got: Vec<(u64, Vec<u8>)> = got.into_iter().map(|r| (r.sequence, r.payload)).collect();
+            if got != want {
+                return Err(format!("scan returned {:?}, spec scan {:?}", got.iter().map(|(s, p)| (*s, p.len())).collect::<Vec<_>>(), want.iter().map(|(s, p)| (*s, p.len())).collect::<Vec<_>>()));
+            }
+            let want_seq = recs.last().map_or(0, |(s, _)| *s);
+            if st.sequence != want_seq {
+                return Err(format!("sequence after open {} != last scanned {}", st.sequence, want_seq));
+            }
+            let want_pb: u64 = want.iter().map(|(_, p)| 48 + p.len() as u64).sum();
+            if st.pending_bytes != want_pb {
+                return Err(format!("pending_bytes after open {} != {}", st.pending_bytes, want_pb));
+            }
+            Ok(())
+        }
+    }
+}
+
+fn build_image(region: usize, payloads: &[usize]) -> Vec<u8> {
+    let mut img = vec![0u8; region];
+    let mut c = 0usize;
+    for (i, &n) in payloads.iter().enumerate() {
+        if c + 48 + n > region {
+            break;
+        }
+        let payload: Vec<u8> = (0..n).map(|k| (k as u8).wrapping_mul(31).wrapping_add(i as u8 + 1)).collect();
+        img[c..c + 8].copy_from_slice(&(i as u64 + 1).to_le_bytes());
+        img[c + 8..c + 12].copy_from_slice(&(n as u32).to_le_bytes());
+        img[c + 16..c + 48].copy_from_slice(blake3::hash(&payload).as_bytes());
+        img[c + 48..c + 48 + n].copy_from_slice(&payload);
+        c += 48 + n;
+    }
+    img
+}
+
+fn hex(b: &[u8]) -> String {
+    b.iter().map(|x| format!("{x:02x}")).collect()
+}
+
+/// phase 2: well-formed images with 0..2 records and every single-byte corruption of them (3 masks)
+fn image_phase() -> Result<u64, String> {
+    let mut tried = 0u64;
+    for &region in &[40usize, 64, 100, 112, 160] {
+        let layouts: Vec<Vec<usize>> = vec![vec![], vec![1], vec![3], vec![region.saturating_sub(48)], vec![3, 2], vec![1, 1, 1], vec![3, region.saturating_sub(99)]];
+        for l in layouts {
+            let l: Vec<usize> = l.into_iter().filter(|&n| n >= 1).collect();
+            let base = build_image(region, &l);
+            tried += 1;
+            check_image(&base).map_err(|e| format!("image={} :: {e}", hex(&base)))?;
+            for pos in 0..region {
+                for mask in [0x01u8, 0x80, 0xFF] {
+                    let mut img = base.clone();
+                    img[pos] ^= mask;
+                    tried += 1;
+                    check_image(&img).map_err(|e| format!("image={} :: {e}", hex(&img)))?;
+                }
+            }
+        }
+    }
+    Ok(tried)
+}
+
 #[test]
 fn verif_wal_search() {
+    if let Ok(h) = std::env::var("VERIF_WAL_HISTORY") {
+        if let Some(hx) = h.strip_prefix("image=") {
+            let img: Vec<u8> = (0..hx.len() / 2).map(|i| u8::from_str_radix(&hx[2 * i..2 * i + 2], 16).unwrap()).collect();
+            match check_image(&img) {
+                Ok(()) => println!("VERIF-REPLAY-PASS history={h}"),
+                Err(e) => println!("VERIF-REPLAY-FAIL history={h} :: {e}"),
+            }
+            return;
+        }
+    }
     if let Ok(h) = std::env::var("VERIF_WAL_HISTORY") {
         let (region, ops) = parse_hist(&h);
         match run(region, &ops) {
@@ -151,10 +267,19 @@ fn verif_wal_search() {
         return;
     }
     let budget = std::env::var("VERIF_WAL_BUDGET_S").ok().and_then(|s| s.parse().ok()).unwrap_or(50u64);
-    let deadline = Instant::now() + Duration::from_secs(budget);
+    // VERIF_WAL_MAX_DEPTH: complete enumeration up to that depth (the bounded stand-in mode, no time limit)
+    let max_depth: Option<usize> = std::env::var("VERIF_WAL_MAX_DEPTH").ok().and_then(|s| s.parse().ok());
+    let deadline = Instant::now() + Duration::from_secs(if max_depth.is_some() { 86_400 } else { budget });
+    let images = match image_phase() {
+        Ok(n) => n,
+        Err(e) => {
+            println!("VERIF-REPLAY-FAIL history={e}");
+            return;
+        }
+    };
     let regions = [96u64, 100, 144, 160, 200, 256];
     let mut tried = 0u64;
-    for depth in 1..=5usize {
+    for depth in 1..=max_depth.unwrap_or(5) {
         for &region in &regions {
             // payload sizes chosen around the interesting edges of this region
             let r = region as usize;
@@ -188,5 +313,5 @@ fn verif_wal_search() {
             }
         }
     }
-    println!("VERIF-SEARCH-NONE tried={tried} (enumeration complete)");
+    println!("VERIF-SEARCH-NONE tried={tried} images={images} (enumeration complete to depth {})", max_depth.unwrap_or(5));
 }
